@@ -49,13 +49,13 @@ package ignorefiles
 //@       && ($last >= 0 ==> ruleM(r, $last, path))
 //@       && ($last < anyIndex && anyIndex < $iter ==> !ruleM(r, anyIndex, path))
 //@       && foundMatch == ($last >= 0 && !r.rules[$last].negated)
-//@       && dominating == (foundMatch && !r.rules[$last].negationsAfter)
+//@       && dominating == (foundMatch && !r.rules[$last].negationsAfter && hasSuffix(r.rules[$last].val, "**"))
 //@   ensures C03.excludes.nil: r == nil ==> !res.Excluded && !res.Dominating
 //@   ensures C03.excludes.last: r != nil ==> $last >= -1 && $last < len(r.rules) && ($last >= 0 ==> ruleM(r, $last, path))
 //@   ensures C03.excludes.nolater: r != nil && $last < anyIndex && anyIndex < len(r.rules) ==> !ruleM(r, anyIndex, path)
 //@   ensures C03.excludes.lastwins: r != nil ==> res.Excluded == ($last >= 0 && !r.rules[$last].negated)
 //@   ensures-local C03.excludes.dominating-sound: r != nil && res.Dominating ==> hasSuffix(r.rules[$last].val, "**")
-//@   ensures C03.excludes.dominating: r != nil ==> res.Dominating == (res.Excluded && !r.rules[$last].negationsAfter)
+//@   ensures C03.excludes.dominating: r != nil ==> res.Dominating == (res.Excluded && !r.rules[$last].negationsAfter && hasSuffix(r.rules[$last].val, "**"))
 
 //@ func ParseIgnoreFileContent -> (rs, err)
 //@   sweep
